@@ -152,3 +152,29 @@ Proof.
   - replace (last - Nat.max first last) with 0 by lia. cbn [f_advance]. f_equal. f_equal. lia.
 Qed.
 End Fixed.
+
+(* ---- several species within a step (mean-field back-end) ------------------------------ *)
+Section SpeciesSpec.
+Variable Sp : Type.
+Variable sp_step : Sp -> nat -> Sp.
+
+Lemma adv_upto_length k (l : list Sp) : adv_upto Sp sp_step (length l) k l = adv_all Sp sp_step k l.
+Proof. induction l as [|x t IH]; [reflexivity|]. cbn [length adv_upto adv_all map]. f_equal. exact IH. Qed.
+
+(* the failure-free step advances every species exactly once *)
+Theorem mf_step_ok k (l : list Sp) rb : mf_step Sp sp_step rb None k l = (adv_all Sp sp_step k l, true).
+Proof. unfold mf_step. rewrite adv_upto_length. reflexivity. Qed.
+
+(* with the roll-back: wherever in the step the user function raises (after any number j of species, the field
+   equation included), nothing has changed when the exception leaves, and the repeated step is the failure-free one *)
+Theorem mf_failure_atomic k (l : list Sp) j :
+  fst (mf_step Sp sp_step true (Some j) k l) = l /\
+  mf_step Sp sp_step true None k (fst (mf_step Sp sp_step true (Some j) k l)) = (adv_all Sp sp_step k l, true).
+Proof. split; [reflexivity|]. cbn [mf_step fst]. apply (mf_step_ok k l true). Qed.
+
+(* without it the repeated step advances the first j species a second time *)
+Theorem mf_failure_no_rollback k (l : list Sp) j :
+  fst (mf_step Sp sp_step false None k (fst (mf_step Sp sp_step false (Some j) k l))) =
+  adv_all Sp sp_step k (adv_upto Sp sp_step j k l).
+Proof. cbn [mf_step fst]. apply adv_upto_length. Qed.
+End SpeciesSpec.
